@@ -563,7 +563,9 @@ struct WkdScenario : Scenario {
     const char* name() const override { return "wkd"; }
     int step_offset() const override { return 1; }
 
+    static inline thread_local bool g_wide_directives = false;
     static std::string directive(Rng& r, int bias_hide) {
+        if (g_wide_directives && !r.chance(1, 6)) return r.chance(1, 5) ? "-~" : "-";   // wide systems: five slots in six are left as they are
         int k = r.range(0, 9);
         if (k < 4) return "f:" + value_codes()[r.below(value_codes().size())] + (r.chance(1, 3) ? "~" : "");
         if (k < 4 + bias_hide) return r.chance(1, 3) ? "h~" : "h";
@@ -579,6 +581,9 @@ struct WkdScenario : Scenario {
         Rng r(seed); Plan p; p.scenario = name();
         auto kn = [&](const char* k, int64_t d) { auto it = knobs.find(k); return it == knobs.end() ? d : it->second; };
         int l = (int) kn("l", r.range(0, 6)); if (r.chance(1, 12)) l = r.range(7, 9);
+        // wide systems: more slots than any fixed-width shortcut (a 64-bit slot bitmap, a one-byte count, a length quotient that is only
+        // wrong from 12 entries on) survives; most slots stay free so that keys carry long free-slot arrays
+        bool wide = kn("wide", 0) != 0; if (wide) { int w = (int) r.below(3); l = w == 0 ? r.range(12, 23) : w == 1 ? r.range(24, 64) : r.range(65, 80); g_wide_directives = true; }
         p.cfg["l"] = l; p.cfg["sig"] = kn("sig", r.chance(3, 4)); p.cfg["setup_seed"] = (int64_t) (r.next() >> 1);
         if (kn("hopenum", 0)) return generate_hopenum(r, kn("__idx", 0), kn("stride", 1));
         int focus = (int) kn("focus", 0);     // 0 mixed, 11..14 emphasise the ops of that property, 15 marshalling hops
@@ -619,6 +624,7 @@ struct WkdScenario : Scenario {
             else if (kind == "TAMPERCT") p.ops.push_back({kind, {(int64_t) r.below(64), (int64_t) r.below(3)}, {}});
             else if (kind == "HOP") p.ops.push_back(WkdRun::gen_hop(r));
         }
+        g_wide_directives = false;
         return p;
     }
 
